@@ -328,7 +328,7 @@ func (o *structFieldsCBOR) FromCBOR(dm cbor.DecMode, data []byte) error {
 		return err
 	}
 
-	if mapLen != 0 {
+	if additionalInfo != 31 { // definite length (which may be zero)
 		// not pre-sized: mapLen is chosen by the sender and may announce
 		// far more entries than the input holds
 		o.Fields = make(map[int]cbor.RawMessage)
@@ -339,7 +339,7 @@ func (o *structFieldsCBOR) FromCBOR(dm cbor.DecMode, data []byte) error {
 				return fmt.Errorf("map item %d: %w", i, err)
 			}
 		}
-	} else { // mapLen == 0 --> indefinite encoding
+	} else { // additional information 31 --> indefinite encoding
 		o.Fields = make(map[int]cbor.RawMessage)
 
 		i := 0
